@@ -166,7 +166,7 @@ def run(out, tier, seed, model_ok):
     import mammoth
     rng = random.Random(seed * 7919 + 12)
     npk = 60 if tier == "quick" else 600
-    tmpdir = os.path.join(WORK, "c12")
+    tmpdir = os.path.join(WORK, "c12-%d" % os.getpid())     # private: the check also looks at what else appears in it
     os.makedirs(tmpdir, exist_ok=True)
     for i in range(npk):
         data0 = make_package(seed * 1000003 + i)
@@ -184,11 +184,26 @@ def run(out, tier, seed, model_ok):
                     path = os.path.join(tmpdir, "p%d.docx" % os.getpid())
                     with open(path, "wb") as f:
                         f.write(cur)
+                    listing = sorted(os.listdir(tmpdir))
                     with open(path, "r+b") as f:
                         mammoth.embed_style_map(f, s)
+                        # "the file" is the object the caller passed: what that same handle now reads must be the new archive
+                        via_handle_map = mammoth.read_embedded_style_map(f)
+                        f.seek(0)
+                        via_handle = f.read()
                     with open(path, "rb") as f:
                         after = f.read()
                     os.unlink(path)
+                    if via_handle != after or via_handle_map != s:
+                        out.count(key="emb-%d-%d" % (i, step), nontrivial=True)
+                        out.violation("after embed_style_map(f, s) the caller's own r+b handle does not read the new archive "
+                                      "(read_embedded_style_map(f) = %r; bytes via handle %s bytes via path)"
+                                      % (via_handle_map if via_handle_map is None else via_handle_map[:40], "==" if via_handle == after else "!="), case)
+                        break
+                    left = sorted(set(os.listdir(tmpdir)) - set(listing))
+                    if left:
+                        out.violation("embed_style_map left other files next to the document: %r" % left, case)
+                        break
                 else:
                     f = io.BytesIO(cur)
                     mammoth.embed_style_map(f, s)
